@@ -677,6 +677,34 @@ def op_toMido(r):
     return ["toMido"] + enc_msgs(r), guarded(f)
 
 
+def op_encodeMido(r):
+    """the mido objects `to_midi_track().to_mido_track()` builds, attribute by attribute (key signatures by their NAME), against the
+    codec model Model/MidoCodec.lean that the composed save/load theorem (Props/C12c.lean) is about"""
+    def f():
+        try:
+            track = mk_rel(r).to_midi_track().to_mido_track()
+        except Exception:
+            return "ERR"
+        out = []
+        for m in track:
+            ch = getattr(m, "channel", None)
+            ch = "N" if ch is None else str(ch)
+            if m.type in ("note_on", "note_off"):
+                out.append(f"{m.type},{m.time},{ch},{m.note},{m.velocity}")
+            elif m.type == "time_signature":
+                out.append(f"time_signature,{m.time},{m.numerator},{m.denominator}")
+            elif m.type == "key_signature":
+                out.append(f"key_signature,{m.time},{m.key}")
+            elif m.type == "control_change":
+                out.append(f"control_change,{m.time},{ch},{m.control},{m.value}")
+            elif m.type == "program_change":
+                out.append(f"program_change,{m.time},{ch},{m.program}")
+            else:
+                out.append(f"other,{m.time}")
+        return "[" + ";".join(out) + "]"
+    return ["encodeMido"] + enc_msgs(r), f()
+
+
 MIDO_TYPES = ["note_on", "note_off", "time_signature", "key_signature", "control_change", "program_change", "other"]
 
 
